@@ -196,7 +196,7 @@ def run(ctx):
         if ctx.tier == "quick" and "q" in tiers:
             ctx.add(n, kq, timeout=1500, skip_bads=STROBE_RE)
         elif ctx.tier == "thorough":
-            ctx.add(n, (kq + 6) if kq else 44, timeout=1200, min_K=kq or 36, chunk=2, skip_bads=STROBE_RE)
+            ctx.add(n, kq or 40, timeout=1200, skip_bads=STROBE_RE)      # thorough = more configurations at the quick depth
     for a, n in STROBE_BENCHES.items():
         if ctx.only and not ctx.only.search(a):
             continue
